@@ -35,6 +35,9 @@ pub struct RunCtx {
     pub seed: u64,
     /// this worker process was started with WIREFILTER_USE_AVX2=0
     pub scalar_worker: bool,
+    /// this worker compiles / evaluates the run's objects in reverse order (WFSIM_REVERSE=1): paired with a
+    /// forward worker on the same run indices, so results that depend on order or process history show up
+    pub reverse_order: bool,
     pub want_sample: bool,
 }
 
@@ -147,6 +150,7 @@ pub fn worker_main(prop: &PropDef, args: &[String]) {
         std::env::var("WIREFILTER_USE_AVX2").as_deref(),
         Ok("0") | Ok("no") | Ok("false")
     );
+    let reverse_order = std::env::var_os("WFSIM_REVERSE").is_some();
     let out = std::io::stdout();
     let start = Instant::now();
     let mut evaluations = 0u64;
@@ -175,6 +179,7 @@ pub fn worker_main(prop: &PropDef, args: &[String]) {
             run: i,
             seed,
             scalar_worker,
+            reverse_order,
             want_sample: samples.len() < want_samples && (i >= prop.directed as u64 || samples.is_empty()),
         };
         let rec = execute(
@@ -201,6 +206,10 @@ pub fn worker_main(prop: &PropDef, args: &[String]) {
         }
         // commutative digest: independent of how runs are partitioned over workers
         log_digest = log_digest.wrapping_add(rng::fnv_u64(rng::fnv_u64(rng::fnv_u64(rng::FNV_OFFSET, i), rec.tape_hash), rec.sched_hash));
+        if let Some(d) = rec.result_digest {
+            let mut o = out.lock();
+            let _ = writeln!(o, "D {i} {d:016x}");
+        }
         if std::env::var_os("WFSIM_DUMP").is_some() {
             eprintln!("H {i} {:016x} {:016x} {}", rec.tape_hash, rec.sched_hash, rec.steps);
         }
@@ -257,6 +266,7 @@ pub fn eval_main(prop: &PropDef, args: &[String]) {
         run,
         seed,
         scalar_worker,
+        reverse_order: std::env::var_os("WFSIM_REVERSE").is_some(),
         want_sample: false,
     };
     let mode = match v.get("tape").and_then(|t| t.as_array()) {
@@ -287,6 +297,7 @@ pub fn eval_main(prop: &PropDef, args: &[String]) {
         "tape": tape_json(&rec.tape),
         "trace": rec.trace,
         "steps": rec.steps,
+        "result_digest": rec.result_digest.map(|d| format!("{d:016x}")),
     });
     println!("R {out}");
 }
@@ -298,6 +309,7 @@ struct EvalOut {
     tape: Value,
     trace: Vec<String>,
     died: Option<String>,
+    result_digest: Option<String>,
 }
 
 fn eval_tape(prop: &PropDef, tier: Tier, scalar: bool, run: u64, seed: u64, tape: Option<&[u32]>, trace: bool) -> EvalOut {
@@ -338,6 +350,11 @@ fn eval_tape_logged(prop: &PropDef, tier: Tier, scalar: bool, run: u64, seed: u6
     } else {
         cmd.env_remove("WIREFILTER_USE_AVX2");
     }
+    if EVAL_REVERSE.load(std::sync::atomic::Ordering::SeqCst) {
+        cmd.env("WFSIM_REVERSE", "1");
+    } else {
+        cmd.env_remove("WFSIM_REVERSE");
+    }
     match tape_log {
         Some(p) => {
             cmd.env("WFSIM_TAPE_LOG", p);
@@ -362,6 +379,7 @@ fn eval_tape_logged(prop: &PropDef, tier: Tier, scalar: bool, run: u64, seed: u6
                         .map(|a| a.iter().map(|s| s.as_str().unwrap_or("").to_string()).collect())
                         .unwrap_or_default(),
                     died: None,
+                    result_digest: v["result_digest"].as_str().map(|s| s.to_string()),
                 };
             }
         }
@@ -373,7 +391,42 @@ fn eval_tape_logged(prop: &PropDef, tier: Tier, scalar: bool, run: u64, seed: u6
         tape: Value::Null,
         trace: Vec::new(),
         died: Some(format!("{:?}", out.status)),
+        result_digest: None,
     }
+}
+
+/// Whether evaluations started by this driver process run with WFSIM_REVERSE (set around cross-checks only).
+static EVAL_REVERSE: std::sync::atomic::AtomicBool = std::sync::atomic::AtomicBool::new(false);
+
+/// Re-execute one run (by seed and index) in fresh processes under the three configurations and report the
+/// result digests: (simd, forward), (simd, reverse), (scalar, forward).
+pub fn crosscheck(prop: &PropDef, tier: Tier, seed: u64, run: u64) -> [Option<String>; 3] {
+    crosscheck_explained(prop, tier, seed, run).0
+}
+
+/// As `crosscheck`, plus the "baseline ..." trace lines on which the configurations disagree.
+pub fn crosscheck_explained(prop: &PropDef, tier: Tier, seed: u64, run: u64) -> ([Option<String>; 3], Vec<String>) {
+    let mut out = [None, None, None];
+    let mut traces: Vec<Vec<String>> = Vec::new();
+    for (i, (scalar, rev)) in [(false, false), (false, true), (true, false)].into_iter().enumerate() {
+        EVAL_REVERSE.store(rev, std::sync::atomic::Ordering::SeqCst);
+        let r = eval_tape(prop, tier, scalar, run, seed, None, true);
+        out[i] = r.result_digest;
+        traces.push(r.trace.into_iter().filter(|l| l.starts_with("baseline ")).collect());
+    }
+    EVAL_REVERSE.store(false, std::sync::atomic::Ordering::SeqCst);
+    let names = ["(simd, forward)", "(simd, reverse)", "(scalar, forward)"];
+    let mut diff = Vec::new();
+    for other in 1..3 {
+        for l in &traces[0] {
+            if !traces[other].contains(l) {
+                let key = l.split(" -> ").next().unwrap_or("");
+                let theirs = traces[other].iter().find(|x| x.starts_with(key)).cloned().unwrap_or_else(|| "<missing>".into());
+                diff.push(format!("{} {l}   BUT   {} {theirs}", names[0], names[other]));
+            }
+        }
+    }
+    (out, diff)
 }
 
 fn rng_counter() -> u64 {
@@ -566,8 +619,10 @@ pub fn driver_main(prop: &PropDef, tier: Tier) -> i32 {
             .arg(deadline_s.to_string());
         if scalar {
             cmd.env("WIREFILTER_USE_AVX2", "0");
+            cmd.env("WFSIM_REVERSE", "1");
         } else {
             cmd.env_remove("WIREFILTER_USE_AVX2");
+            cmd.env_remove("WFSIM_REVERSE");
         }
         cmd.stdout(Stdio::piped()).stderr(Stdio::piped());
         let child = cmd.spawn().expect("spawn worker");
@@ -587,6 +642,7 @@ pub fn driver_main(prop: &PropDef, tier: Tier) -> i32 {
     let mut scalar_workers = 0u64;
     let mut harness_errors: Vec<String> = Vec::new();
     let mut digest_sum: u64 = 0;
+    let mut run_digests: [BTreeMap<u64, u64>; 2] = [BTreeMap::new(), BTreeMap::new()];
     let mut stopped_early = false;
 
     // read workers (threads to avoid pipe deadlocks)
@@ -607,6 +663,7 @@ pub fn driver_main(prop: &PropDef, tier: Tier) -> i32 {
             });
             let mut last_start: Option<u64> = None;
             let mut viols: Vec<Value> = Vec::new();
+            let mut digests: Vec<(u64, u64)> = Vec::new();
             let mut summary: Option<Value> = None;
             for line in BufReader::new(stdout).lines().map_while(Result::ok) {
                 if let Some(r) = line.strip_prefix("S ") {
@@ -617,16 +674,26 @@ pub fn driver_main(prop: &PropDef, tier: Tier) -> i32 {
                     }
                 } else if let Some(r) = line.strip_prefix("E ") {
                     summary = serde_json::from_str::<Value>(r).ok();
+                } else if let Some(r) = line.strip_prefix("D ") {
+                    let mut it = r.split_whitespace();
+                    if let (Some(a), Some(b)) = (it.next(), it.next()) {
+                        if let (Ok(a), Ok(b)) = (a.parse::<u64>(), u64::from_str_radix(b, 16)) {
+                            digests.push((a, b));
+                        }
+                    }
                 }
             }
             let status = child.wait().expect("wait worker");
             let err_tail = errh.join().unwrap_or_default();
-            (w, scalar, last_start, viols, summary, status, err_tail)
+            (w, scalar, last_start, viols, summary, status, err_tail, digests)
         });
         readers.push(h);
     }
     for h in readers {
-        let (w, scalar, last_start, viols, summary, status, err_tail) = h.join().expect("reader thread");
+        let (w, scalar, last_start, viols, summary, status, err_tail, digests) = h.join().expect("reader thread");
+        for (run, d) in digests {
+            run_digests[scalar as usize].insert(run, d);
+        }
         for v in viols {
             found.push(Found {
                 run: v["run"].as_u64().unwrap_or(0),
@@ -705,6 +772,51 @@ pub fn driver_main(prop: &PropDef, tier: Tier) -> i32 {
         extra_viol = r.violations;
         if let Some(e) = r.harness_error {
             harness_errors.push(e);
+        }
+    }
+
+    // ---- cross-process differential: the same run index executed by the forward/SIMD and the reverse/scalar worker
+    // must compute the same results. A difference is re-examined in fresh processes; only a difference that shows
+    // again there is reported (otherwise it depends on what else the worker process had executed before: counted).
+    let mut cross_compared = 0u64;
+    let mut cross_unconfirmed = 0u64;
+    let mut cross_found = 0;
+    for (run, d0) in &run_digests[0] {
+        let Some(d1) = run_digests[1].get(run) else { continue };
+        cross_compared += 1;
+        if d0 == d1 || cross_found >= 3 {
+            if d0 != d1 {
+                cross_unconfirmed += 1;
+            }
+            continue;
+        }
+        let (c, why) = crosscheck_explained(prop, tier, seed, *run);
+        let class = if c[0] != c[1] {
+            Some("depends-on-compile-order")
+        } else if c[0] != c[2] {
+            Some("depends-on-simd-switch")
+        } else {
+            None
+        };
+        match class {
+            Some(class) => {
+                cross_found += 1;
+                let cmd = format!("{} crosscheck {} {} {} {}", exe().display(), prop.id, tier.name(), seed, run);
+                extra_viol.push((
+                    Violation::new(&format!("{}/result-differs-across-processes", prop.id), class, format!("run {run}: result digests (simd,forward)={:?} (simd,reverse)={:?} (scalar,forward)={:?}", c[0], c[1], c[2])),
+                    json!({"format": 1, "property": prop.id, "engine": prop.engine, "seed": seed, "run": run, "tier": tier.name(), "cmd": cmd,
+                           "signature": {"invariant": format!("{}/result-differs-across-processes", prop.id), "class": class, "detail": format!("{c:?}")},
+                           "trace": std::iter::once(format!("the same run (seed {seed}, index {run}) re-executed in three fresh processes: (simd, forward order) {:?}, (simd, reverse order) {:?}, (scalar, forward order) {:?}", c[0], c[1], c[2])).chain(why.iter().cloned()).collect::<Vec<_>>()}),
+                ));
+            }
+            None => cross_unconfirmed += 1,
+        }
+    }
+    if cross_compared > 0 {
+        extra_cov.insert("cross_process".into(), json!({"runs_compared_between_paired_workers": cross_compared, "differences_confirmed_in_fresh_processes": cross_found, "differences_not_reproduced_in_fresh_processes": cross_unconfirmed,
+            "what": "paired workers execute the same run indices: one on the SIMD path compiling in generation order, one with WIREFILTER_USE_AVX2=0 compiling in reverse order; their result digests must agree"}));
+        if cross_unconfirmed > 0 {
+            println!("NOTE: {cross_unconfirmed} run(s) gave different results in the two paired workers but identical results when re-executed alone in fresh processes (depends on what the worker had executed before)");
         }
     }
 
